@@ -158,12 +158,24 @@ func (d *DepositStore) Corrupted() []string {
 	defer d.mu.Unlock()
 	out := []string{}
 	for a, v := range d.dep {
-		if v.String() != d.shadow[a] {
-			out = append(out, fmt.Sprintf("%s: set to %s, now %s", a, d.shadow[a], v.String()))
+		now := safeBigString(v)
+		if now != d.shadow[a] {
+			out = append(out, fmt.Sprintf("%s: set to %s, now %s", a, d.shadow[a], now))
 		}
 	}
 	sort.Strings(out)
 	return out
+}
+
+// safeBigString renders a big.Int whose digit array may have been written
+// through an alias (its invariants may be broken).
+func safeBigString(v *big.Int) (s string) {
+	defer func() {
+		if p := recover(); p != nil {
+			s = fmt.Sprintf("<unprintable: digits overwritten (%v)>", p)
+		}
+	}()
+	return v.String()
 }
 
 func (d *DepositStore) GetNodeBalance(id store.NodeID) (store.Balance, error) {
